@@ -98,7 +98,7 @@ class C12(RS.StepProp):
         while len(out) < n_steps:
             levels = rng.choice([1, 1, 1, 2, 2, 3])
             laa = rng.random() < 0.7
-            base, blocks = RS.rand_multilevel(rng, levels, laa, squash=rng.random() < 0.3)
+            base, blocks = RS.rand_multilevel(rng, levels, laa, squash=rng.random() < 0.3, coarse_squash=True)
             s = RS.join_blocks(base, blocks)
             legacy = rng.random() < 0.6
             for lv in range(levels):
